@@ -41,7 +41,7 @@ type Case struct {
 	Msgs   []Msg `json:"msgs"`
 }
 
-var kinds = []string{"vote", "vote", "vote", "proposal", "proposal", "part", "part", "newroundstep", "commitstep", "proposalpol", "hasvote", "maj23", "votesetbits", "raw", "nilfields"}
+var kinds = []string{"vote", "vote", "vote", "proposal", "proposal", "part", "part", "newroundstep", "syncstep", "commitstep", "commitstep", "proposalpol", "hasvote", "maj23", "votesetbits", "raw", "nilfields"}
 
 func genCase(t *rapid.T) Case {
 	c := Case{N: rapid.IntRange(1, 7).Draw(t, "n"), Warm: rapid.IntRange(0, 90).Draw(t, "warm")}
@@ -66,6 +66,11 @@ func genCase(t *rapid.T) Case {
 		}
 		return m
 	}), 1, 8).Draw(t, "msgs")
+	if rapid.IntRange(0, 3).Draw(t, "syncFirst") > 0 {
+		// most attackers first tell the victim, truthfully, where "they" are: the peer-state
+		// messages that follow are only applied when heights/rounds match
+		c.Msgs = append([]Msg{{Kind: "syncstep", F: []int{0, 0, 0, 0, 0, 0, 0, 0}}}, c.Msgs...)
+	}
 	return c
 }
 
@@ -132,9 +137,12 @@ func bitArray(sel int, n int) *gcmn.BitArray {
 		}
 		return b
 	case 9:
+		if n > 0 {
+			return &gcmn.BitArray{Bits: n, Elems: make([]uint64, (n+63)/64-1)} // right size, one word short
+		}
 		return &gcmn.BitArray{Bits: 0, Elems: []uint64{^uint64(0)}}
 	case 10:
-		return gcmn.NewBitArray(n * 64)
+		return &gcmn.BitArray{Bits: n, Elems: nil} // right size, no words
 	}
 	b := gcmn.NewBitArray(n)
 	b.SetIndex(0, true)
@@ -303,6 +311,12 @@ func build(m Msg, net *sim.Net, v *sim.Node, byz []int, known []types.BlockID, p
 		}
 		b.bz = enc(&pbft.BlockPartMessage{Height: height, Round: round, Part: part})
 		b.desc = fmt.Sprintf("part{h%d r%d index %d of %x} invalid=%v", height, round, part.Index, bid.PartsHeader.Hash, b.invalid)
+	case "syncstep":
+		b.stateCh = true
+		b.ch = pbft.StateChannel
+		msg := &pbft.NewRoundStepMessage{Height: rs.Height, Round: rs.Round, Step: rs.Step, SecondsSinceStartTime: 1, LastCommitRound: 0}
+		b.bz = enc(msg)
+		b.desc = fmt.Sprintf("syncstep{h%d r%d s%d}", msg.Height, msg.Round, msg.Step)
 	case "newroundstep":
 		b.stateCh = true
 		msg := &pbft.NewRoundStepMessage{Height: pick(f(0), rs.Height, rs.Height), Round: pick(f(1), rs.Round, rs.Round+1), Step: pbft.RoundStepType(pick(f(2), int64(rs.Step), 9)),
@@ -315,7 +329,7 @@ func build(m Msg, net *sim.Net, v *sim.Node, byz []int, known []types.BlockID, p
 		if rs.ProposalBlockParts != nil && f(5)%2 == 0 {
 			psh = rs.ProposalBlockParts.Header()
 		}
-		msg := &pbft.CommitStepMessage{Height: pick(f(0), rs.Height, rs.Height), BlockPartsHeader: psh, BlockParts: bitArray(f(1), psh.Total+1)}
+		msg := &pbft.CommitStepMessage{Height: pick(f(0), rs.Height, rs.Height), BlockPartsHeader: psh, BlockParts: bitArray(f(1), psh.Total)}
 		b.bz = enc(msg)
 		b.desc = fmt.Sprintf("commitstep{h%d parts %d:%x bits %v}", msg.Height, psh.Total, psh.Hash, msg.BlockParts)
 	case "proposalpol":
